@@ -92,3 +92,216 @@ Section Prelude.
     rewrite g_get_throughput_sum_eq. cbn [bind]. apply py_getmany_eq.
   Qed.
 End Prelude.
+
+(* ------------------------------------------------------------------ stage 1: the body of `for _ in range(int(cycles * (1 / INC)))` *)
+Section Step.
+  Context {T : Type} (N : NumOps T).
+
+  Lemma getmany_K {B} (l : list T) ind (K : list T -> res B) :
+    (u <- py_itemgetter_new ind ;; o <- BalanceGen.py_itemgetter l ind ;; bind (g_to_list o) K) = bind (getmany l ind) K.
+  Proof. rewrite <- py_getmany_eq. destruct (py_itemgetter_new ind); [|reflexivity]. cbn [bind].
+    destruct (BalanceGen.py_itemgetter l ind); [|reflexivity]. cbn [bind]. destruct (g_to_list a0); reflexivity. Qed.
+  Lemma getmany_tps_K {B} k ind (K : list T -> res B) :
+    (u <- py_itemgetter_new ind ;; t <- g_get_throughput_sum N k ;; o <- BalanceGen.py_itemgetter t ind ;; bind (g_to_list o) K)
+    = bind (getmany (tp_sum N k) ind) K.
+  Proof. rewrite <- getmany_K. rewrite g_get_throughput_sum_eq. destruct (py_itemgetter_new ind); reflexivity. Qed.
+
+  Lemma filter_sync (F f : nat -> res bool) l : (forall x, F x = f x) -> py_filter_res F l = filter_res f l.
+  Proof. intros H. rewrite (py_filter_res_ext F f H). apply py_filter_res_eq. Qed.
+
+  Ltac lam_eq :=
+    intros; cbn beta iota;
+    repeat (match goal with |- context [nth_res ?a ?b] => destruct (nth_res a b) end; cbn [bind]);
+    try reflexivity;
+    repeat (match goal with |- context [if ?c then _ else _] => destruct c end; cbn [bind orb]);
+    reflexivity.
+
+  Lemma set_nth_min_ok (l l' : list T) i v : set_nth l i v = Ok l' -> exists m, list_min N l' = Ok m.
+  Proof.
+    intros H. destruct l' as [|x r]; [|eexists; reflexivity]. exfalso.
+    destruct l as [|y l]; [destruct i; discriminate|]. destruct i as [|i]; [discriminate|].
+    cbn [set_nth] in H. destruct (set_nth l i v); discriminate.
+  Qed.
+
+  Ltac head t :=
+    match t with
+    | bind ?r _ => head r
+    | (if ?c then _ else _) => head c
+    | (match ?c with _ => _ end) => head c
+    | _ => t
+    end.
+
+  Ltac norm := cbn [bind fst snd].
+  Ltac step :=
+    norm;
+    try reflexivity;
+    try match goal with
+    | |- Err _ = ?R =>
+      let h := head R in
+      match h with
+      | list_min N ?l =>
+        match goal with E : set_nth _ _ _ = Ok l |- _ =>
+          let m := fresh "m" in let Hm := fresh "Hm" in destruct (set_nth_min_ok _ _ _ _ E) as [m Hm]; rewrite Hm; norm end
+      end
+    end;
+    try reflexivity;
+    match goal with
+    | |- ?L = _ =>
+      let h := head L in
+      lazymatch h with
+      | Ok _ => fail
+      | Err _ => fail
+      | py_min _ _ => rewrite (py_min_eq N)
+      | py_max _ _ => rewrite (py_max_eq N)
+      | py_index_num _ _ _ => rewrite (py_index_num_eq N)
+      | py_del _ _ => unfold py_del
+      | nth_res ?l 0%nat => destruct l; cbn [nth_res nth_error]
+      | py_itemgetter_new _ => first [rewrite getmany_K | rewrite getmany_tps_K]
+      | g_itemsetter _ _ _ => rewrite g_itemsetter_eq
+      | py_filter_res ?F (py_zip ?a ?b) =>
+        first [ match goal with |- _ = ?R => match R with context [zipfilter_res ?f a b] =>
+          match L with context [@map (nat * T)%type T ?G] =>
+            rewrite <- (py_zipfilter_eq f F G ltac:(lam_eq) ltac:(lam_eq) a b) end end end
+              | let E := fresh "E" in destruct h eqn:E ]
+      | py_filter_res ?F ?l =>
+        match goal with |- _ = ?R => match R with context [filter_res ?f l] =>
+          rewrite (filter_sync F f l ltac:(lam_eq)) end end
+      | _ => let E := fresh "E" in destruct h eqn:E; rewrite ?E
+      end
+    end.
+
+  Lemma len_is_1 {A} (l : list A) : (py_len l =? 1)%Z = match l with [_] => true | _ => false end.
+  Proof. destruct l as [|x [|y l]]; try reflexivity. apply Z.eqb_neq. unfold py_len. cbn [List.length]. lia. Qed.
+
+  Definition st_of (s : bstate (T:=T)) := (b_ip s, b_df s, b_pp s, b_ind s, b_ps s).
+
+
+  (* (S1) one iteration of the translated inner loop IS the hand model's: the break test, then bstep -- every state,
+     every kernel, error outcomes included.  The exact-zero counter b_exact0 is a ghost of the model (the code has none). *)
+  Theorem g_bal_body_step k idx s :
+    g_bal_body N k idx (st_of s) =
+    match b_ip s with
+    | [_] => Ok (true, st_of s)                                       (* len(instr_ports) == 1: break *)
+    | _ => s' <- bstep N k idx s ;; Ok (false, st_of s')
+    end.
+  Proof.
+    destruct s as [pp ind ip df ps e]. unfold st_of, g_bal_body; cbn [b_ip b_df b_pp b_ind b_ps]. rewrite len_is_1.
+    destruct ip as [|x0 [|y0 ip0]]; [|reflexivity|];
+      unfold bstep, rule1, rule2, add_at, sub_at, INC, zero; cbn [b_ip b_df b_pp b_ind b_ps b_exact0]; repeat step.
+  Qed.
+
+  (* (S1') the translated loop IS bloop *)
+  Theorem g_bal_loop_eq k idx : forall n s,
+    py_loop n (st_of s) (g_bal_body N k idx) = (s' <- bloop N n k idx s ;; Ok (st_of s')).
+  Proof.
+    induction n as [|n IH]; intros s; [reflexivity|]. cbn [py_loop bloop]. rewrite g_bal_body_step.
+    destruct (b_ip s) as [|x0 [|y0 ip0]]; try reflexivity.
+    - destruct (bstep N k idx s) as [s'|e0]; [|reflexivity]. cbn [bind fst snd]. apply IH.
+    - destruct (bstep N k idx s) as [s'|e0]; [|reflexivity]. cbn [bind fst snd]. apply IH.
+  Qed.
+End Step.
+
+(* ------------------------------------------------------------------ stage 2: the body of `for uop in instruction_form.port_uops` and the loop *)
+Section Uop.
+  Context {T : Type} (N : NumOps T).
+
+  (* writing the row of line idx twice = writing the second row *)
+  Lemma set_nth_nth_error {A} : forall (l : list A) i v l', set_nth l i v = Ok l' -> nth_error l' i = Some v.
+  Proof.
+    induction l as [|x l IH]; intros i v l' H; [destruct i; discriminate|]. destruct i as [|i].
+    - inversion H; reflexivity.
+    - cbn [set_nth] in H. destruct (set_nth l i v) as [r|] eqn:E; [|discriminate]. inversion H; subst. cbn. eapply IH; exact E.
+  Qed.
+  Lemma set_nth_twice {A} : forall (l : list A) i v w l', set_nth l i v = Ok l' -> set_nth l' i w = set_nth l i w.
+  Proof.
+    induction l as [|x l IH]; intros i v w l' H; [destruct i; discriminate|]. destruct i as [|i].
+    - inversion H; reflexivity.
+    - cbn [set_nth] in H. destruct (set_nth l i v) as [r|] eqn:E; [|discriminate]. inversion H; subst. cbn [set_nth].
+      rewrite (IH i v w r E). reflexivity.
+  Qed.
+  Lemma set_nth_some {A} : forall (l : list A) i x v, nth_error l i = Some x -> exists l', set_nth l i v = Ok l'.
+  Proof.
+    induction l as [|y l IH]; intros i x v H; [destruct i; discriminate|]. destruct i as [|i]; [eexists; reflexivity|].
+    cbn in H. destruct (IH i x v H) as [l' E]. cbn [set_nth]. rewrite E. eexists; reflexivity.
+  Qed.
+  Lemma set_pp_twice (k : list (instr (T:=T))) idx a b : set_pp (set_pp k idx a) idx b = set_pp k idx b.
+  Proof.
+    unfold set_pp at 2 3. destruct (nth_error k idx) as [i|] eqn:E; [|unfold set_pp; rewrite E; reflexivity].
+    destruct (set_nth_some k idx i (mkinstr (i_tp i) a (i_uops i)) E) as [k1 E1]. rewrite E1.
+    unfold set_pp. rewrite (set_nth_nth_error _ _ _ _ E1). cbn [i_tp i_uops].
+    rewrite (set_nth_twice _ _ _ _ _ E1).
+    destruct (set_nth_some k idx i (mkinstr (i_tp i) b (i_uops i)) E) as [k2 E2]. rewrite E2. reflexivity.
+  Qed.
+
+  (* the balancing of one micro-op sees the kernel only through `set_pp k idx <row>` *)
+  Ltac head t :=
+    match t with
+    | bind ?r _ => head r
+    | (if ?c then _ else _) => head c
+    | (match ?c with _ => _ end) => head c
+    | _ => t
+    end.
+  Ltac kstep H :=
+    cbn [bind]; try reflexivity;
+    match goal with
+    | |- ?L = _ => let h := head L in
+      lazymatch h with
+      | Ok _ => fail
+      | Err _ => fail
+      | context [set_pp (set_pp _ _ _) _ _] => rewrite H
+      | _ => let E := fresh "E" in destruct h eqn:E
+      end
+    end.
+
+  Lemma bstep_kernel k idx a s : bstep N (set_pp k idx a) idx s = bstep N k idx s.
+  Proof.
+    pose proof (set_pp_twice k idx a) as H. unfold bstep.
+    repeat kstep H.
+  Qed.
+  Lemma bloop_kernel k idx a : forall n s, bloop N n (set_pp k idx a) idx s = bloop N n k idx s.
+  Proof.
+    induction n as [|n IH]; intros s; [reflexivity|]. cbn [bloop]. rewrite bstep_kernel.
+    destruct (b_ip s) as [|x0 [|y0 r]]; try reflexivity; destruct (bstep N k idx s); cbn [bind]; try reflexivity; apply IH.
+  Qed.
+  Lemma balance_uop_kernel ports k idx a pp u :
+    balance_uop N ports (set_pp k idx a) idx pp u = balance_uop N ports k idx pp u.
+  Proof.
+    unfold balance_uop. destruct u as [c ps]. destruct (indices_of ports ps) as [ind|]; [|reflexivity]. cbn [bind].
+    rewrite set_pp_twice. destruct (getmany (tp_sum N (set_pp k idx pp)) ind) as [psums|]; [|reflexivity]. cbn [bind].
+    destruct (getmany pp ind) as [ip|]; [|reflexivity]. cbn [bind]. rewrite bloop_kernel. reflexivity.
+  Qed.
+
+  (* (S2) the translated body of the micro-op loop IS balance_uop (the counter of exact zeros is the model's ghost) *)
+  Theorem g_bal_uop_eq ports k idx u pp :
+    g_bal_uop N ports k idx u pp = (r <- balance_uop N ports k idx pp u ;; Ok (fst r)).
+  Proof.
+    destruct u as [c ps]. unfold g_bal_uop, balance_uop. cbn [fst snd].
+    rewrite (py_map_res_indices ports _ (fun p => bind_ok_id (py_index ports p))).
+    destruct (indices_of ports ps) as [ind|e]; [|reflexivity]. cbn [bind].
+    rewrite getmany_tps_K. destruct (getmany (tp_sum N (set_pp k idx pp)) ind) as [psums|e]; [|reflexivity]. cbn [bind].
+    rewrite getmany_K. destruct (getmany pp ind) as [ip|e]; [|reflexivity]. cbn [bind].
+    rewrite py_set_len. destruct (all_equal N psums); [reflexivity|]. cbn [negb].
+    change (ip, map (fun _ : string => ndiv N c (nofZ N (py_len ps))) ps, pp, ind, psums)
+      with (st_of (mkb pp ind ip (map (fun _ : string => ndiv N c (nofZ N (Z.of_nat (List.length ps)))) ps) psums 0)).
+    rewrite g_bal_loop_eq. unfold INC.
+    destruct (bloop N _ k idx _) as [s'|e]; reflexivity.
+  Qed.
+
+  Lemma balance_uops_kernel ports k idx a : forall us pp ex,
+    balance_uops N ports (set_pp k idx a) idx pp us ex = balance_uops N ports k idx pp us ex.
+  Proof.
+    destruct us as [|u us]; intros pp ex; [reflexivity|]. cbn [balance_uops]. rewrite balance_uop_kernel.
+    destruct (balance_uop N ports k idx pp u) as [[p1 e1]|]; [|reflexivity]. cbn [bind]. rewrite set_pp_twice. reflexivity.
+  Qed.
+
+  (* (S2') the translated micro-op loop IS balance_uops; the Python passes the same (mutated) kernel object to every
+     micro-op, the model passes `set_pp k idx <row so far>`: the same thing (balance_uops_kernel) *)
+  Theorem g_bal_uops_eq ports idx : forall us k pp ex,
+    g_bal_uops N ports k idx pp us = (r <- balance_uops N ports k idx pp us ex ;; Ok (fst r)).
+  Proof.
+    unfold g_bal_uops. induction us as [|u us IH]; intros k pp ex; [reflexivity|].
+    cbn [py_for balance_uops]. rewrite g_bal_uop_eq.
+    destruct (balance_uop N ports k idx pp u) as [[pp' e]|e]; [|reflexivity]. cbn [bind fst].
+    rewrite (IH k pp' (ex + e)%nat), balance_uops_kernel. reflexivity.
+  Qed.
+End Uop.
